@@ -33,6 +33,14 @@ func NewIOReader(reader io.Reader) ro.Observable[[]byte] {
 
 		for {
 			n, err := reader.Read(buf)
+			if n > 0 {
+				// io.Reader may return data together with an error (io.EOF included), and the
+				// buffer is reused by the next Read: emit a copy of what was read first.
+				chunk := make([]byte, n)
+				copy(chunk, buf[:n])
+				destination.NextWithContext(ctx, chunk)
+			}
+
 			if err != nil {
 				if err == io.EOF {
 					destination.CompleteWithContext(ctx)
@@ -41,7 +49,6 @@ func NewIOReader(reader io.Reader) ro.Observable[[]byte] {
 				}
 				break
 			}
-			destination.NextWithContext(ctx, buf[:n])
 		}
 
 		return func() {
